@@ -176,7 +176,7 @@ def gen_cases(idx, nchunks, tier):
                     k += 1
     if tier == 'thorough':
         rng = sub_rng(PROP, 'rand', idx)
-        for i in range(20000):
+        for i in range(80000):
             op = rng.choice(UN + BIN + TER)
             n = 1 if op in UN else 2 if op in BIN else 3
             st = []
@@ -341,11 +341,11 @@ def main():
     n = 32
     for r in parallel(worker, [(bindir, i, n, a.tier) for i in range(n)]):
         rep.merge(r)
-    for r in parallel(binary_worker, [(bindir, i, 40 if a.tier == 'quick' else 600) for i in range(16)]):
+    for r in parallel(binary_worker, [(bindir, i, 40 if a.tier == 'quick' else 2000) for i in range(16)]):
         rep.merge(r)
     return rep.finish(
         rule='exhaustive over a boundary pool of %d values (numbers 0,+-1,+-127/128/255/256,2^15,2^31-1,2^39-1, negative zero, blobs of length 0..12, unequal lengths) for all arities of the 15 opcodes, '
-             'x {no flags, standard flags}; disabled / unexecuted variants on a 1/16 operand sample (they do not depend on operands); thorough adds 640k random operand tuples; a sample runs through the real binary (`btcdeb -z <script> <operands>` and the same without the option, non-interactive). '
+             'x {no flags, standard flags}; disabled / unexecuted variants on a 1/16 operand sample (they do not depend on operands); thorough adds 2.5M random operand tuples; a sample runs through the real binary (`btcdeb -z <script> <operands>` and the same without the option, non-interactive). '
              'non-trivial = distinct (opcode, operands, flags, mode) judged against the reference function (computed result or required failure)' % len(POOL),
         assumptions=['OP_2DIV is judged as `x 2 OP_DIV` (quotient truncated toward zero); rounding of negative values in OP_RSHIFT (a shift, not a division): truncation and floor are both accepted',
                      'numeric operands longer than 4 bytes may be refused as numeric overflow',
